@@ -786,6 +786,12 @@ func (c *CEnv) evalCall(e *Expr) Val {
 				v.t = fmt.Sprintf("(s.base %s)", v.t)
 			}
 			return Val{t: fmt.Sprintf("(< %s %s)", v.t, c.heap.top), typ: tBool}
+		case "sbase": // the backing array of a slice (two slices with different backing arrays do not overlap)
+			v := c.eval(args[0])
+			if _, ok := v.typ.Underlying().(*types.Slice); !ok {
+				efail("sbase() of a non-slice")
+			}
+			return Val{t: fmt.Sprintf("(s.base %s)", v.t), typ: tInt}
 		case "fresh": // allocated since old state
 			v := c.eval(args[0])
 			if c.old == nil {
